@@ -25,6 +25,7 @@ static linepart::array *arr;   /* parts of the last apply/poly (for join) */
 
 static void drv_reset(void)
 {
+	alarm(4);   /* a behaviour is a few calls on small data: a longer run is a hang */
 	free(data); data = 0; dlen = 0;
 	ranged = 1; shift = 0;
 	delete arr; arr = 0;
